@@ -399,6 +399,69 @@ func shapeTy(r *hx.Rng, it interface{}) *Ty {
 	panic("shapeTy")
 }
 
+// intLens: declared string lengths an integer position must refuse (well beyond 8, around every
+// multiple of 256, so that a length narrowed to a byte would look like 0..9).
+var intLens = []int{9, 10, 55, 56, 255, 256, 257, 258, 259, 260, 263, 264, 265, 511, 512, 513, 520, 521, 768, 769, 776, 1025, 65535, 65536, 65537, 65544, 65545}
+
+// longIntString: a well-formed string of L bytes whose first L mod 256 bytes (8 when that is 0) look
+// like a canonical integer and whose remaining bytes look like further small integers.
+func longIntString(r *hx.Rng, L int) []byte {
+	p := make([]byte, L)
+	for i := range p {
+		p[i] = byte(r.Pick(0x01, 0x01, 0x02, 0x7f))
+	}
+	if L > 0 {
+		p[0] = byte(r.Pick(0xff, 0x80, 0x81, 0x01))
+	}
+	if r.Chance(1, 4) {
+		copy(p, r.Bytes(L))
+		if L > 0 && p[0] == 0 {
+			p[0] = 1
+		}
+	}
+	b, _ := rlp.EncodeToBytes(p)
+	return b
+}
+
+// intPositions sends one long string into integer positions: typed decoders at top level, nested in
+// slices / arrays / structs with a tail, and Stream.Uint/Bool/uintN scripts.
+func intPositions(rn *runner, r *hx.Rng, L int, light bool) {
+	str := longIntString(r, L)
+	h := hx.Hex(str)
+	if light {
+		// a very long string, a few positions only (the model walks 64 KiB lists: keep quick quick)
+		rn.do("dec u64 " + h)
+		enc, _ := rlp.EncodeToBytes([]interface{}{rlp.RawValue(str), []byte{0x01}})
+		rn.do("dec R2,u64,tail,S,u64 " + hx.Hex(enc))
+		rn.do("stream auto " + hx.Hex(enc) + " l,u64,u64,k,e")
+		return
+	}
+	for _, t := range []string{"u8", "u16", "u32", "u64", "bool", "big", "P,u64"} {
+		rn.do("dec " + t + " " + h)
+	}
+	rn.do("stream auto " + h + " " + pickS(r, "u64", "u8", "u16", "u32", "t") + ",k,u64,u64,b")
+	rn.do("stream unl " + h + " " + pickS(r, "u64", "u8", "t") + ",u64,u64,k")
+	// nested: [str], [1, str], [str, 1, 1], with the real encoder writing the enclosing header
+	for _, tree := range [][]interface{}{
+		{rlp.RawValue(str)},
+		{[]byte{0x01}, rlp.RawValue(str)},
+		{rlp.RawValue(str), []byte{0x01}, []byte{0x02}},
+		{[]interface{}{rlp.RawValue(str)}, []byte{0x05}},
+	} {
+		enc, err := rlp.EncodeToBytes(tree)
+		if err != nil {
+			continue
+		}
+		eh := hx.Hex(enc)
+		for _, t := range []string{"S,u64", "S,u8", "S,bool", "S,big", "R2,u64,tail,S,u64", "R2,u8,tail,S,u16", "R1,tail,S,u64", "A2,u64", "R2,u64,u64", "R2,S,u64,u64", "S,any"} {
+			rn.do("dec " + t + " " + eh)
+		}
+		rn.do("stream auto " + eh + " l," + pickS(r, "u64", "u8", "t", "u32") + ",u64,u64,k,e")
+		rn.do("stream auto " + eh + " l,u64," + pickS(r, "u64", "u16", "t") + ",u64,e")
+		rn.do("stream unl " + eh + " l,u64,u64,u64,e,k")
+	}
+}
+
 // nestedHostile emits one well-formed tree with one hostile header planted somewhere inside,
 // through the generic, raw, Stream (limited, explicit limit, unlimited) and typed entry points.
 func nestedHostile(rn *runner, r *hx.Rng) {
@@ -813,6 +876,21 @@ func generate(rn *runner, r *hx.Rng, thorough bool) {
 		if r.Chance(1, 3) {
 			rn.do("dec " + pickS(r, "bytes", "str", "raw", "big", "u64", "S,bytes", "any", "S,raw") + " " + mh)
 		}
+	}
+	// (b'') long strings in integer positions, every boundary length (thorough: three payload variants)
+	for _, L := range intLens {
+		if L > 2000 && !thorough {
+			continue
+		}
+		intPositions(rn, r, L, false)
+		if thorough && L <= 2000 {
+			intPositions(rn, r, L, false)
+			intPositions(rn, r, L, false)
+		}
+	}
+	if !thorough {
+		intPositions(rn, r, 65537, true) // a large one also in quick
+		intPositions(rn, r, 65544, true)
 	}
 	// (b') hostile headers at every nesting position
 	nHost := 2500
